@@ -51,7 +51,9 @@ def option_sets(backend):
         return [('plain', [], ['routes.js'], {}),
                 ('opts', ['-a', ':all'], ['routes.js', '-c', 'Box', '--wrap-response-in', 'Resp',
                                           '--wrap-error-in', 'Err', '-a', 'style', '-a', 'auth', '-a', 'host',
-                                          '--request-options'], {})]
+                                          '--request-options'], {}),
+                ('all-attrs', ['-a', ':all'], ['routes.js', '-a', 'style', '-a', 'since', '-a', 'ratio', '-a', 'weight',
+                                               '-a', 'scope', '-a', 'is_preview', '-a', 'select_mode'], {})]
     if backend == 'tsd_types':
         return [('plain', [], ['tmpl.d.ts', 'out.d.ts'], {'tmpl.d.ts': TSD_TEMPLATE}),
                 ('opts', [], ['tmpl.d.ts', '-i', '1', '-s', '4', '-p', 'Mod', '--export-namespaces',
@@ -62,6 +64,9 @@ def option_sets(backend):
                                           '--wrap-response-in', 'Resp', '--wrap-error-in', 'Err',
                                           '--import-namespaces', '--types-file', './types', '-a', 'style',
                                           '-a', 'host', '-a', 'auth'],
+                 {'tmpl.d.ts': TSD_TEMPLATE}),
+                ('all-attrs', ['-a', ':all'], ['tmpl.d.ts', 'client.d.ts', '-a', 'style', '-a', 'since', '-a', 'ratio',
+                                               '-a', 'weight', '-a', 'scope', '-a', 'is_preview', '-a', 'select_mode'],
                  {'tmpl.d.ts': TSD_TEMPLATE})]
     if backend == 'swift_types':
         return [('plain', [], [], {}),
